@@ -55,7 +55,7 @@ def body(case, rec):
         return
     sc, tc, near, info = pairs.classify(g, tt, tx, st_, sx)
     if pairs.close_disjoint_excluded(info, sc):
-        rec.exclude('close_disjoint_ratio_above_8')
+        rec.exclude('short_panel_close_to_much_longer_one')
         return
     scale = (refint.diag(g, tt, tx, 'coarse') * refint.diag(g, st_, sx, 'coarse'))**0.5
     exact = bool(case.get('exact')) and not g.circle
@@ -81,7 +81,7 @@ def body(case, rec):
                     if pairs.close_disjoint_excluded(i2, s2):
                         skip = True
             if skip:
-                rec.exclude('close_disjoint_pieces_ratio_above_8')
+                rec.exclude('short_piece_close_to_much_longer_one')
                 continue
             with repo.quiet():
                 tot = 0.0
